@@ -4,6 +4,8 @@ TRUSTED_COMMON = [
     "Lean 4.33 kernel (leanchecker re-check in the thorough tier); axioms: propext, Classical.choice, Quot.sound only",
     "factgen (go/ast extractor of tables/constants/rows) and the overlay build normalisations N1/N2",
     "hand-written models are tied to the Go code by the differential run recorded in this file (sampled, bounded)",
+    "ambient configuration (go/harness/ambient.go): before each case the options the property's statement does not mention get pseudo-random legal "
+    "values derived from the case text (per-property whitelist); expected results never depend on them",
 ]
 
 PROPS = {}
